@@ -1141,4 +1141,308 @@ theorem staged_untouched (opts : Opts) (ms : Stmt) (kind : String) (spec : Entry
   | notSupported => simp only [notSupported]; split <;> rfl
   | other => rfl
 
+
+/-! ### `applyDeviations`: the folds named -/
+
+/-- One deviate statement inside `applyDeviations` (the body of the inner fold). -/
+def innerStep (opts : Opts) (m : Mod) (t : Nat) (path : Path) (acc : Forest × Entry × Bool × List Err)
+    (ds : String × Entry) : Forest × Entry × Bool × List Err :=
+  let (f, node, detached, errs) := acc
+  let (node', remove, es) := applyOneDeviate opts m.stmt ds.1 ds.2 (!path.isEmpty) node
+  let es := if remove && detached then es ++ [Err.at_ m.stmt "deviate-already-removed"] else es
+  let f := if detached then f else
+    match f.tree? t with
+    | none => f
+    | some root =>
+      let root := root.updateAt path fun _ => node'
+      f.setTree t (if remove then removeAt root path else root)
+  (f, node', detached || remove, errs ++ es)
+
+/-- One deviation statement inside `applyDeviations` (the body of the outer fold). -/
+def outerStep (reg : Registry) (opts : Opts) (m : Mod) (acc : Forest × List Err) (dv : Stmt × List (String × Entry)) :
+    Forest × List Err :=
+  let (f, errs) := acc
+  let (dstmt, deviates) := dv
+  let (target, f) := find reg f (m.seq, []) m.seq dstmt.arg
+  match target with
+  | none => (f, errs ++ [Err.bare "deviate-no-target"])
+  | some (t, path) =>
+    match (f.tree? t).bind (·.getAt path) with
+    | none => (f, errs ++ [Err.bare "deviate-no-target"])
+    | some node0 =>
+      let (f, _, _, errs) := deviates.foldl (innerStep opts m t path) (f, node0, false, errs)
+      (f, errs)
+
+theorem applyDeviations_eq (reg : Registry) (opts : Opts) (m : Mod) (devs : List (Stmt × List (String × Entry))) (f : Forest) :
+    applyDeviations reg opts m devs f = devs.foldl (outerStep reg opts m) (f, []) := rfl
+
+/-! #### the target node alone: a left fold in list order -/
+
+/-- The deviate statements of one deviation as they act on the target node: the node, whether it has
+been unlinked by a not-supported, and the errors so far. -/
+def nodeStep (opts : Opts) (ms : Stmt) (hp : Bool) (acc : Entry × Bool × List Err) (ds : String × Entry) :
+    Entry × Bool × List Err :=
+  let r := applyOneDeviate opts ms ds.1 ds.2 hp acc.1
+  (r.1, acc.2.1 || r.2.1,
+    acc.2.2 ++ (if r.2.1 && acc.2.1 then r.2.2 ++ [Err.at_ ms "deviate-already-removed"] else r.2.2))
+
+def nodeFold (opts : Opts) (ms : Stmt) (hp : Bool) (acc : Entry × Bool × List Err) (ds : List (String × Entry)) :
+    Entry × Bool × List Err :=
+  ds.foldl (nodeStep opts ms hp) acc
+
+theorem innerStep_node (opts : Opts) (m : Mod) (t : Nat) (path : Path) (acc : Forest × Entry × Bool × List Err)
+    (ds : String × Entry) :
+    (innerStep opts m t path acc ds).2 = nodeStep opts m.stmt (!path.isEmpty) acc.2 ds := by
+  obtain ⟨f, node, detached, errs⟩ := acc
+  rfl
+
+/-- The node, the unlinked flag and the errors do not depend on the forest. -/
+theorem innerFold_node (opts : Opts) (m : Mod) (t : Nat) (path : Path) (ds : List (String × Entry)) :
+    ∀ (acc : Forest × Entry × Bool × List Err),
+      (ds.foldl (innerStep opts m t path) acc).2 = nodeFold opts m.stmt (!path.isEmpty) acc.2 ds := by
+  induction ds with
+  | nil => intro acc; rfl
+  | cons d ds ih =>
+    intro acc
+    simp only [List.foldl_cons, nodeFold]
+    rw [ih, innerStep_node]; rfl
+
+
+/-! #### forests -/
+
+theorem find_map_key (l : List (Nat × Entry)) (g : Nat × Entry → Nat × Entry) (id : Nat) (hg : ∀ x, (g x).1 = x.1) :
+    (l.map g).find? (·.1 == id) = (l.find? (·.1 == id)).map g := by
+  induction l with
+  | nil => rfl
+  | cons x xs ih =>
+    simp only [List.map_cons, List.find?_cons, hg x]
+    split
+    · rfl
+    · exact ih
+
+theorem tree?_setTree_same (f : Forest) (t : Nat) (e root : Entry) (h : f.tree? t = some root) :
+    (f.setTree t e).tree? t = some e := by
+  unfold Forest.tree? Forest.setTree at *
+  simp only
+  rw [find_map_key _ _ _ (by intro x; split <;> rfl)]
+  cases hf : f.trees.find? (·.1 == t) with
+  | none => simp [hf] at h
+  | some x =>
+    have hx : x.1 = t := by simpa using List.find?_some hf
+    simp [hx]
+
+theorem tree?_setTree_other (f : Forest) (t t' : Nat) (e : Entry) (h : t' ≠ t) :
+    (f.setTree t e).tree? t' = f.tree? t' := by
+  unfold Forest.tree? Forest.setTree
+  simp only
+  rw [find_map_key _ _ _ (by intro x; split <;> rfl)]
+  cases hf : f.trees.find? (·.1 == t') with
+  | none => rfl
+  | some x =>
+    have hx : x.1 = t' := by simpa using List.find?_some hf
+    have : ¬ x.1 = t := by rw [hx]; exact h
+    simp [this]
+
+/-- What is seen at a location of the forest: the node data there, if the location exists. -/
+def obs (f : Forest) (t : Nat) (q : Path) : Option EData := ((f.tree? t).bind (·.getAt q)).map (·.d)
+
+/-- The node handed to `updateAt path (fun _ => ·)` carries the name the path looks up last. -/
+def PathNamed (path : Path) (n : Entry) : Prop :=
+  match path.getLast? with
+  | some (.child k) => n.name = k
+  | _ => True
+
+theorem NameStable.of_pathNamed {path : Path} {n : Entry} (h : PathNamed path n) : NameStable path (fun _ => n) := by
+  unfold NameStable; unfold PathNamed at h
+  split
+  · next k hk => rw [hk] at h; intro _ _; exact h
+  · trivial
+
+theorem child?_name {e x : Entry} {k : String} (h : e.child? k = some x) : x.name = k := by
+  unfold Entry.child? at h
+  simpa using List.find?_some h
+
+/-- A node found at a path that ends in `.child k` is named `k`. -/
+theorem pathNamed_of_getAt : ∀ (path : Path) (root n : Entry), root.getAt path = some n → PathNamed path n
+  | [], _, _, _ => by simp [PathNamed]
+  | [.child k], root, n, h => by
+    simp only [Entry.getAt] at h
+    cases hc : root.child? k with
+    | none => simp [hc] at h
+    | some x =>
+      simp [hc, Entry.getAt] at h
+      subst h
+      simpa [PathNamed] using child?_name hc
+  | [.input], _, _, _ => by simp [PathNamed]
+  | [.output], _, _, _ => by simp [PathNamed]
+  | s :: s' :: p, root, n, h => by
+    have hl : PathNamed (s :: s' :: p) n = PathNamed (s' :: p) n := by
+      simp [PathNamed, List.getLast?_cons_cons]
+    rw [hl]
+    cases s with
+    | child k =>
+      simp only [Entry.getAt] at h
+      cases hc : root.child? k with
+      | none => simp [hc] at h
+      | some x => simp [hc] at h; exact pathNamed_of_getAt (s' :: p) x n h
+    | input =>
+      simp only [Entry.getAt] at h
+      cases hc : root.inp.head? with
+      | none => simp [hc] at h
+      | some x => simp [hc] at h; exact pathNamed_of_getAt (s' :: p) x n h
+    | output =>
+      simp only [Entry.getAt] at h
+      cases hc : root.out.head? with
+      | none => simp [hc] at h
+      | some x => simp [hc] at h; exact pathNamed_of_getAt (s' :: p) x n h
+
+theorem applyOneDeviate_untouched (opts : Opts) (ms : Stmt) (kind : String) (spec : Entry) (hp : Bool) (node : Entry) :
+    untouched (applyOneDeviate opts ms kind spec hp node).1 = untouched node := by
+  rw [applyOneDeviate_eq_staged]; exact staged_untouched opts ms kind spec hp node
+
+theorem applyOneDeviate_name (opts : Opts) (ms : Stmt) (kind : String) (spec : Entry) (hp : Bool) (node : Entry) :
+    (applyOneDeviate opts ms kind spec hp node).1.name = node.name := by
+  have := applyOneDeviate_untouched opts ms kind spec hp node
+  simp only [untouched, Prod.mk.injEq] at this
+  exact this.2.2.2.1
+
+/-- Only a node that has a parent is ever removed. -/
+theorem applyOneDeviate_remove (opts : Opts) (ms : Stmt) (kind : String) (spec : Entry) (hp : Bool) (node : Entry)
+    (h : (applyOneDeviate opts ms kind spec hp node).2.1 = true) : hp = true ∧ opts.ignoreNotSupported = false := by
+  rw [applyOneDeviate_eq_staged] at h
+  unfold staged at h
+  cases hk : kindOf kind with
+  | add | replace =>
+    simp only [hk, addReplace] at h
+    repeat' split at h
+    all_goals simp at h
+  | delete =>
+    simp only [hk] at h
+    rw [delete_eq] at h
+    simp only [] at h
+    repeat' split at h
+    all_goals simp at h
+  | notSupported =>
+    simp only [hk, notSupported] at h
+    cases hp <;> simp_all
+  | other => simp [hk] at h
+
+
+/-! #### one deviation: frame and target -/
+
+/-- The forest after one deviate statement. -/
+theorem innerStep_forest (opts : Opts) (m : Mod) (t : Nat) (path : Path) (f : Forest) (node : Entry) (detached : Bool)
+    (errs : List Err) (ds : String × Entry) :
+    (innerStep opts m t path (f, node, detached, errs) ds).1 =
+      (if detached then f else
+        match f.tree? t with
+        | none => f
+        | some root =>
+          let r := applyOneDeviate opts m.stmt ds.1 ds.2 (!path.isEmpty) node
+          f.setTree t (if r.2.1 then removeAt (root.updateAt path fun _ => r.1) path else root.updateAt path fun _ => r.1)) := rfl
+
+/-- **Frame of one deviate statement**: any location in another tree, or in the target's tree but
+neither the target nor below it, shows the same data afterwards. -/
+theorem innerStep_frame (opts : Opts) (m : Mod) (t : Nat) (path : Path) (acc : Forest × Entry × Bool × List Err)
+    (ds : String × Entry) (hn : PathNamed path acc.2.1) (t' : Nat) (q : Path) (hq : t' ≠ t ∨ ¬ path <+: q) :
+    obs (innerStep opts m t path acc ds).1 t' q = obs acc.1 t' q := by
+  obtain ⟨f, node, detached, errs⟩ := acc
+  rw [innerStep_forest]
+  cases detached with
+  | true => rfl
+  | false =>
+    simp only [Bool.false_eq_true, if_false]
+    cases hroot : f.tree? t with
+    | none => rfl
+    | some root =>
+      simp only []
+      by_cases ht : t' = t
+      · subst ht
+        have hq' : ¬ path <+: q := by
+          rcases hq with h | h
+          · exact absurd rfl h
+          · exact h
+        have hst : NameStable path (fun _ => (applyOneDeviate opts m.stmt ds.1 ds.2 (!path.isEmpty) node).1) := by
+          apply NameStable.of_pathNamed
+          unfold PathNamed at hn ⊢
+          split
+          · next k hk => rw [hk] at hn; rw [applyOneDeviate_name]; exact hn
+          · trivial
+        unfold obs
+        rw [tree?_setTree_same f t' _ root hroot, hroot]
+        simp only [Option.bind_some]
+        split
+        · rw [getAt_removeAt_frame _ path q hq', getAt_updateAt_frame _ path q hst root hq']
+        · rw [getAt_updateAt_frame _ path q hst root hq']
+      · unfold obs
+        rw [tree?_setTree_other f t t' _ ht]
+
+theorem innerFold_frame (opts : Opts) (m : Mod) (t : Nat) (path : Path) (ds : List (String × Entry)) :
+    ∀ (acc : Forest × Entry × Bool × List Err), PathNamed path acc.2.1 →
+      ∀ (t' : Nat) (q : Path), (t' ≠ t ∨ ¬ path <+: q) →
+      obs (ds.foldl (innerStep opts m t path) acc).1 t' q = obs acc.1 t' q := by
+  induction ds with
+  | nil => intros; rfl
+  | cons d ds ih =>
+    intro acc hn t' q hq
+    simp only [List.foldl_cons]
+    rw [ih _ _ t' q hq, innerStep_frame opts m t path acc d hn t' q hq]
+    -- the node handed on keeps its name
+    rw [innerStep_node]
+    unfold PathNamed at hn ⊢
+    split
+    · next k hk =>
+      rw [hk] at hn
+      show (applyOneDeviate opts m.stmt d.1 d.2 (!path.isEmpty) acc.2.1).1.name = k
+      rw [applyOneDeviate_name]; exact hn
+    · trivial
+
+/-- The state of the target while the deviate statements of a deviation are applied: as long as no
+not-supported has unlinked it, the tree holds the current node at the target location; afterwards
+neither the target nor anything below it exists. -/
+def TargetInv (t : Nat) (path : Path) (acc : Forest × Entry × Bool × List Err) : Prop :=
+  (acc.2.2.1 = false → (acc.1.tree? t).bind (·.getAt path) = some acc.2.1) ∧
+  (acc.2.2.1 = true → ∀ r, (acc.1.tree? t).bind (·.getAt (path ++ r)) = none)
+
+theorem innerStep_target (opts : Opts) (m : Mod) (t : Nat) (path : Path) (acc : Forest × Entry × Bool × List Err)
+    (ds : String × Entry) (hn : PathNamed path acc.2.1) (h : TargetInv t path acc) :
+    TargetInv t path (innerStep opts m t path acc ds) := by
+  obtain ⟨f, node, detached, errs⟩ := acc
+  obtain ⟨h1, h2⟩ := h
+  simp only at h1 h2
+  have hnode := innerStep_node opts m t path (f, node, detached, errs) ds
+  have hf := innerStep_forest opts m t path f node detached errs ds
+  cases detached with
+  | true =>
+    refine ⟨fun hd => ?_, fun _ => ?_⟩
+    · rw [hnode] at hd; simp [nodeStep] at hd
+    · rw [hf]; exact h2 rfl
+  | false =>
+    have h1' := h1 rfl
+    cases hroot : f.tree? t with
+    | none => simp [hroot] at h1'
+    | some root =>
+      rw [hroot] at h1'
+      simp only [Option.bind_some] at h1'
+      have hst : NameStable path (fun _ => (applyOneDeviate opts m.stmt ds.1 ds.2 (!path.isEmpty) node).1) := by
+        apply NameStable.of_pathNamed
+        unfold PathNamed at hn ⊢
+        split
+        · next k hk => rw [hk] at hn; rw [applyOneDeviate_name]; exact hn
+        · trivial
+      simp only [Bool.false_eq_true, if_false, hroot] at hf
+      refine ⟨fun hd => ?_, fun hd => ?_⟩
+      · rw [hnode] at hd ⊢
+        simp only [nodeStep, Bool.false_or] at hd ⊢
+        rw [hf, hd, tree?_setTree_same f t _ root hroot]
+        simp only [Bool.false_eq_true, if_false, Option.bind_some]
+        rw [getAt_updateAt_self _ path hst root, h1']; rfl
+      · rw [hnode] at hd
+        simp only [nodeStep, Bool.false_or] at hd
+        intro r
+        rw [hf, hd, tree?_setTree_same f t _ root hroot]
+        simp only [if_true, Option.bind_some]
+        have hp := (applyOneDeviate_remove _ _ _ _ _ _ hd).1
+        exact getAt_removeAt_gone _ path (by intro he; simp [he] at hp) r
+
 end Goyang.Lemmas.Deviate
